@@ -18,6 +18,16 @@ from formula_common import enc_rational
 CAP = 2 * 10 ** 9
 
 
+def pmap(fn, items, procs=16):
+    """fork-pool map also for short lists of slow items (core.pmap runs < 64 items serially)."""
+    import multiprocessing
+    items = list(items)
+    if len(items) <= 1:
+        return [fn(x) for x in items]
+    with multiprocessing.get_context("fork").Pool(min(procs, len(items))) as pool:
+        return pool.map(fn, items, 1)
+
+
 def frac(q):
     return Fraction(int(q[0]), int(q[1]))
 
@@ -61,6 +71,17 @@ def enc_q(x):
     except ImportError:
         pass
     return enc_rational(x)
+
+
+def tlc_many(ctx, jobs, workers=6):
+    """Run several independent TLC configs concurrently (JVM start-up dominates the small slices).
+    jobs: list of (module, cfg, kwargs) -> list of TLCResult in order; failures propagate."""
+    from concurrent.futures import ThreadPoolExecutor
+    if len(jobs) <= 1:
+        return [ctx.tlc(m, c, **kw) for m, c, kw in jobs]
+    with ThreadPoolExecutor(len(jobs)) as ex:
+        futs = [ex.submit(ctx.tlc, m, c, workers=workers, **kw) for m, c, kw in jobs]
+        return [f.result() for f in futs]
 
 
 # ------------------------------------------------------------------ building inputs
